@@ -154,7 +154,7 @@ def run(ctx: Any) -> None:
 
     translate(ctx)
     ctx.prove(
-        ["prop/P_C18.vo", "tie/T_Codec.vo"],
+        ["prop/P_C18.vo"],
         {
             "P_C18": [
                 "C18_roundtrip_cap", "C18_roundtrip_nocap", "C18_zstd_frame_cap", "C18_zstd_frame_nocap",
@@ -162,6 +162,11 @@ def run(ctx: Any) -> None:
                 "C18_declared_over_cap_refused", "C18_declared_within_cap_oneshot", "C18_requests_bounded",
                 "C18_zstd_loop_terminates",
             ],
+        },
+    )
+    ctx.prove(
+        ["tie/T_Codec.vo"],
+        {
             "T_Codec": [
                 "codec_params_tie", "codec_chunk_ok", "C18_source_roundtrip_cap", "C18_source_roundtrip_nocap", "C18_source_zstd_frame_cap",
                 "C18_source_gzip_frame_cap", "C18_source_unknown_size_sentinel", "C18_source_requests_bounded",
@@ -207,7 +212,7 @@ def run(ctx: Any) -> None:
 
     def verdict_term(cls: str, out: bytes | None, d: bytes) -> str:
         if cls == "ok":
-            return "VSame" if out == d else f"VOther {H.coq_bytes(out or b'')}"
+            return "VSame" if out == d else f"VOther ({len(out or b'')}) {H.coq_bytes((out or b'')[:32])}"
         if cls == "limit":
             return "VLimit"
         return "VCodecErr"
@@ -445,7 +450,7 @@ def run(ctx: Any) -> None:
                 if shown >= 4:
                     break
                 got = ctx.coq_show(header, f"let d := expand {pterm} in let r := {sub_runner} d {inp} in "
-                                           f"(out_eqb r {exp}, match fst r with VOther b => VOther (firstn 8 b) | v => v end, snd r)")
+                                           f"(out_eqb r {exp}, fst r, snd r)")
                 if "(true," in got:
                     continue
                 shown += 1
